@@ -564,6 +564,17 @@ def vm_modifier_arms(vfn, variants):
         if depth > 12 or n is None:
             return None
         if k == "Block":
+            # guard clauses first: `if !is_trivia { return match rule.ty { .. } }` decides the ordinary rules, the code
+            # after it the trivia ones
+            for s in n.get("stmts", []):
+                if s.get("k") in ("Expr", "Semi") and kind(peel(s["e"])) == "If" and peel(s["e"]).get("else") is None:
+                    gi = peel(s["e"])
+                    if hirq.diverges(gi["then"]):
+                        v = name_test(gi["cond"], ws)
+                        if v is True:
+                            return sel(gi["then"], ty, ws, depth + 1)
+                        if v is None and any(kind(y) == "Match" and RTYPE in str(y.get("sty", "")) for y in walk(gi["then"])):
+                            return None
             if n.get("expr") is not None:
                 return sel(n["expr"], ty, ws, depth + 1)
             sts = [s for s in n.get("stmts", []) if s.get("k") in ("Expr", "Semi")]
